@@ -487,6 +487,9 @@ func (eci encryptedContentInfo) decrypt(key []byte) ([]byte, error) {
 	if len(iv) != block.BlockSize() {
 		return nil, errors.New("pkcs7: encryption algorithm parameters are malformed")
 	}
+	if len(cyphertext)%block.BlockSize() != 0 {
+		return nil, errors.New("pkcs7: encrypted content is not a multiple of the block size")
+	}
 	mode := cipher.NewCBCDecrypter(block, iv)
 	plaintext := make([]byte, len(cyphertext))
 	mode.CryptBlocks(plaintext, cyphertext)
@@ -531,6 +534,9 @@ func unpad(data []byte, blocklen int) ([]byte, error) {
 
 	// the last byte is the length of padding
 	padlen := int(data[len(data)-1])
+	if padlen > len(data) {
+		return nil, errors.New("invalid padding")
+	}
 
 	// check padding integrity, all bytes should be the same
 	pad := data[len(data)-padlen:]
